@@ -33,6 +33,15 @@ func Root() string {
 	return "/verif"
 }
 
+// OutRoot is where evidence and replay files are written: /verif, unless an experiment on a scratch copy of the
+// repository redirects its output (VERIF_OUT) so that it cannot overwrite the evidence of real runs.
+func OutRoot() string {
+	if r := os.Getenv("VERIF_OUT"); r != "" {
+		return r
+	}
+	return Root()
+}
+
 type Violation struct {
 	Property  string         `json:"property"`
 	Signature string         `json:"signature"` // monitor clause, e.g. C15/no-close
@@ -269,7 +278,7 @@ func (r *Run) Merge(p *Partial) {
 func (r *Run) Finish() int {
 	r.mu.Lock()
 	defer r.mu.Unlock()
-	root := Root()
+	root := OutRoot()
 	_ = os.MkdirAll(filepath.Join(root, "evidence"), 0o755)
 	_ = os.MkdirAll(filepath.Join(root, "replays"), 0o755)
 	wall := time.Since(r.start).Seconds()
